@@ -50,6 +50,9 @@ package http1
 //@ ghost var bsChecked bool
 //@ ghost var bsIs bool
 //@ ghost var relDone bool
+// C19 (stage events): the loop itself records only the four stage-start events, each once and in stage order; a
+// stage-finish event is recorded only by the callback pushed together with its start (popped when the stage ends), so
+// no event slot is ever written twice within one request.
 // hjClr (C09): the hijack handler a request handler may have installed on the pooled context was taken off it again
 // (no reset clears that field: a handler left behind would hijack the connection of whichever request gets the
 // context next) - on every way out of the loop after the handler ran.
@@ -75,6 +78,11 @@ package http1
 //@   ghostset after RequestContext.SetHijackHandler: hjClr = (arg1 == nil)
 //@   top-ensures @C09 !rejecting && phase >= 2 ==> hjClr
 //@   assert @C09 before ResetWithoutConn: hjClr
+//@   assert @C19 before Record!: arg1 == stats.ReadHeaderStart || arg1 == stats.ReadBodyStart || arg1 == stats.ServerHandleStart || arg1 == stats.WriteStart
+//@   assert @C19 before Record!#0: arg1 == stats.ReadHeaderStart
+//@   assert @C19 before Record!#1: arg1 == stats.ReadBodyStart
+//@   assert @C19 before Record!#2: arg1 == stats.ServerHandleStart
+//@   assert @C19 before Record!#3: arg1 == stats.WriteStart
 //@   ghostset after Request.MayContinue: mayCont = result
 //@   ghostset after ContinueReadBody: contDone = true
 //@   ghostset after ContinueReadBodyStream: contDone = true
